@@ -13,7 +13,7 @@ def build(repo, tier, seed):
     v7, u7 = templated_keys_proof.option_contract(repo)
     vcs = vcs + v6 + v7
     und = und + u6 + u7
-    b = classlaws.bundle(repo, tier, seed, ("L1", "L3", "L4a"), classes=["Option"], extra_vcs=vcs + v2, bounded=False)
+    b = classlaws.bundle(repo, tier, seed, ("L1", "L3", "L4a"), classes=["Option"], extra_vcs=vcs + v2, bounded=False, crosscheck=True)
     b["syntactic"] += syn2 + syn3 + syn4 + syn5
     b["undecided"] += und + u2 + u3 + u4 + u5
     from harness import lawsearch
